@@ -5,6 +5,9 @@ CONSTANTS
   ExIds = {1, 2, 3}
   Handlers = {1, 2}
   MaxPkts = 8
+  MaxOwn = 1
+  OwnKeys <- Own11
+  RoleBlind = FALSE
   Policies = {"reply", "drop", "hold", "relDrop"}
 INVARIANTS RightExchangeOnly OpensOnlyIfAllowed EmitAtEnd
 CHECK_DEADLOCK FALSE
